@@ -669,6 +669,85 @@ fn rejoin(ctx: &mut Ctx, judge: u8) {
     }
 }
 
+
+/// An idle socket that is only ever polled with a deadline: a peer closes (or resets), nobody else
+/// sends anything afterwards, and every recv call from then on is abandoned while it waits. The
+/// dead connection must still be released (by the time a second such call has been made).
+fn idle_release(ctx: &mut Ctx) {
+    world::swarm(ctx, SwarmOpts::default());
+    let kind = [Kind::Router, Kind::Dealer, Kind::Rep, Kind::Pull, Kind::Xpub, Kind::Sub][(ctx.idx % 6) as usize];
+    let by_reset = (ctx.idx / 6) % 2 == 1;
+    let nby = ctx.plan(3) as usize;
+    let nmsg = ctx.plan(3) as u32;
+    let calls = 2 + ctx.plan(3) as usize;
+    let out: Rc<RefCell<(bool, Option<Arc<rt::net::Conn>>)>> = Rc::new(RefCell::new((false, None)));
+    let o2 = out.clone();
+    let peer_type = kind.peers()[0];
+    rt::task::spawn_local("app", async move {
+        let mut sock = AnySock::new(kind, None);
+        if kind == Kind::Sub {
+            let _ = sock.subscribe("").await;
+        }
+        let ep = sock.bind("tcp://127.0.0.1:0").await.expect("bind").to_string();
+        let dummy = Rc::new(RefCell::new(Out::default()));
+        dummy.borrow_mut().bystander_got = vec![0; 4];
+        let mut keep = Vec::new();
+        for b in 0..nby {
+            let mut p = RawPeer::connect(&ep).expect("connect");
+            let _ = p.hello(peer_type, Some(format!("by{b}").as_bytes())).await;
+            keep.push(p);
+        }
+        let mut v = RawPeer::connect(&ep).expect("connect");
+        o2.borrow_mut().1 = Some(v.conn.clone());
+        let _ = v.hello(peer_type, Some(b"victim")).await;
+        for n in 0..nmsg {
+            let mut m = if kind == Kind::Rep { vec![vec![]] } else { vec![] };
+            let mut body = tagged(50, n, &[3]);
+            if kind == Kind::Xpub {
+                body[0].insert(0, 1);
+            }
+            m.extend(body);
+            let _ = v.send_msg(&m).await;
+        }
+        drain(&mut sock, kind, &dummy, false).await;
+        if by_reset {
+            v.reset();
+            drop(v);
+        } else {
+            v.close();
+        }
+        // from here on: silence, and recv calls that give up
+        for _ in 0..calls {
+            let _ = rt::future::or_idle(sock.recv()).await;
+            rt::count("probe_recv_abandoned_on_idle_socket");
+        }
+        rt::task::idle().await;
+        o2.borrow_mut().0 = true;
+        world::park().await;
+        drop(sock);
+        drop(keep);
+    });
+    let end = ctx.sim.run(300_000);
+    if end == rt::RunEnd::Budget {
+        ctx.violation("no_quiescence", format!("{} idle release: no quiescence", kind.name()));
+    }
+    ctx.check_panics();
+    let o = out.borrow();
+    if o.0 {
+        if let Some(c) = &o.1 {
+            if !c.released(1) {
+                ctx.violation(&format!("not_released_on_idle_socket:{}:{}", kind.name(), if by_reset { "Reset" } else { "Close" }), format!("{}: a peer ended its connection by {}, nothing else arrived afterwards and {calls} recv calls were made and abandoned while waiting: the socket still holds the dead connection at quiescence", kind.name(), if by_reset { "reset" } else { "close" }));
+            }
+        }
+        ctx.nontrivial();
+    } else if end == rt::RunEnd::Quiescent && ctx.sim.rt.panics.borrow().is_empty() {
+        ctx.violation("hang", format!("{} idle release: the application never finished", kind.name()));
+    }
+    if ctx.want_sample {
+        ctx.out.sample = Some(format!("{}: victim sends {nmsg} message(s), ends by {}, {nby} silent bystanders, {calls} abandoned recv calls", kind.name(), if by_reset { "reset" } else { "close" }));
+    }
+}
+
 /// the fair-queue component simulation with frequent closes: every stream whose end the queue has
 /// seen must be reported as closed exactly once, whatever else happens in the same poll (other
 /// streams waking themselves, running out of cooperative budget, inserts, removals)
@@ -682,12 +761,13 @@ pub fn def() -> PropDef {
     PropDef {
         id: "C16",
         level: "fault_enumeration",
-        rule: "cut_world: the case index enumerates socket type (9) x fault {orderly close, reset, read error, write error} x every byte offset of the victim's stream (greeting, READY, a 2-frame message with a 1-byte and an 8-byte size, a 1-frame message: ~370 offsets, i.e. every handshake stage, between messages, inside flags/length/body, between frames), first undisturbed, then under drawn transport/schedule; 1..3 bystanders with tagged traffic before and after; clauses others_affected, more_than_one_error, routed_to_failed_peer, sends_keep_failing, not_released, hang, no_quiescence; churn: 4..15 connect/exchange/disconnect cycles, retained connections counted; l1_closed_reports: the fair-queue component simulation (3.9) with frequent closes, judged for 'every stream the queue polled to its end is reported as closed exactly once' (the report is what makes a socket release the peer); non-trivial = judgement reached; distinct = distinct (case, plan, schedule, transport)",
+        rule: "cut_world: the case index enumerates socket type (9) x fault {orderly close, reset, read error, write error} x every byte offset of the victim's stream (greeting, READY, a 2-frame message with a 1-byte and an 8-byte size, a 1-frame message: ~370 offsets, i.e. every handshake stage, between messages, inside flags/length/body, between frames), first undisturbed, then under drawn transport/schedule; 1..3 bystanders with tagged traffic before and after; clauses others_affected, more_than_one_error, routed_to_failed_peer, sends_keep_failing, not_released, hang, no_quiescence; churn: 4..15 connect/exchange/disconnect cycles, retained connections counted; idle_release: 6 types x {close, reset}: the victim ends, 0..2 bystanders stay silent, 2..4 recv calls are made and abandoned at idle - the dead connection must be released; l1_closed_reports: the fair-queue component simulation (3.9) with frequent closes, judged for 'every stream the queue polled to its end is reported as closed exactly once' (the report is what makes a socket release the peer); non-trivial = judgement reached; distinct = distinct (case, plan, schedule, transport)",
         assumptions: &["observation point: the socket has been polled to quiescence after the fault (recv drained / sends attempted); 'released' is asserted only after that", "TCP half-close is not injected (its meaning for 'peer is gone' is ambiguous in the statement)"],
         strata: vec![
             Stratum { name: "cut_world", quick: space + 60_000, thorough: (space * 40) * 8, exhaustive: (false, false), run: cut_world, what: "victim cut at every offset x fault kind x socket type, bystanders alive" },
             Stratum { name: "cut_world_connect", quick: space / 2 + 20_000, thorough: (space * 10) * 8, exhaustive: (false, false), run: cut_world_connect, what: "the same grid with the victim at the far end of a connection opened by connect()" },
             Stratum { name: "rejoin_same_identity", quick: 24_000, thorough: (400_000) * 8, exhaustive: (false, false), run: rejoin_same_identity, what: "departure (close / cut inside a message / reset / none: the old connection stays open and idle) and rejoin under the same announced identity at four timings" },
+            Stratum { name: "idle_release", quick: 24_000, thorough: 1_200_000, exhaustive: (false, false), run: idle_release, what: "a peer ends its connection, nothing else arrives, every later recv is abandoned while waiting: the connection is released all the same" },
             Stratum { name: "l1_closed_reports", quick: 200_000, thorough: 20_000_000, exhaustive: (false, false), run: l1_closed_reports, what: "fair-queue component simulation with frequent closes: every ended stream is reported as closed exactly once" },
             Stratum { name: "churn", quick: 18_000, thorough: (300_000) * 8, exhaustive: (false, false), run: churn, what: "repeated connect/disconnect cycles, retained connections" },
         ],
